@@ -405,12 +405,12 @@ def _routines_for_T(files, with_modules):
     return out
 
 
-def snapshot(files):
+def snapshot(files, canon=True):
     snap = {}
     for fname, sf in files.items():
-        snap[('file', fname)] = (sf.to_fortran(), canon_ir(sf))
+        snap[('file', fname)] = (sf.to_fortran(), canon_ir(sf) if canon else None)
         for r in sf.all_subroutines:
-            snap[('routine', r.name.lower())] = (r.to_fortran(), canon_ir(r))
+            snap[('routine', r.name.lower())] = (r.to_fortran(), canon_ir(r) if canon else None)
     return snap
 
 
@@ -425,7 +425,7 @@ def judge(sources, tname):
     if tname == 'resolve_sequence_association':
         from vf import xform
         xform.enrich_all(files)
-    snap0 = snapshot(files)
+    snap0 = snapshot(files, canon=False)
     try:
         for u in _routines_for_T(files, with_modules):
             fn(u)
